@@ -3,7 +3,7 @@
    (minijinja and serde_yaml are NOT modelled): each is a statement "for every evaluator that
    satisfies the stated laws"; the laws are what the correspondence run validates. *)
 From Coq Require Import List String Bool.
-From RashV Require Import Tpl.
+From RashV Require Import Tpl Omit.
 
 Theorem C12_text_without_delimiters_is_unchanged : forall render_tpl yaml_parse,
   Law_literal render_tpl -> forall t v, has_open t = false -> param_pipeline render_tpl yaml_parse true t v = Some (YStr t).
@@ -30,3 +30,22 @@ Proof. exact set_vars_single_pass_refuted_K6. Qed.
 Theorem C12_typed_string_preserved_refuted_K7 :
   param_pipeline toy_render toy_yaml false "{{ x }}" "k: v" = Some YOther /\ known_retyped "k: v" = true.
 Proof. exact typed_string_preserved_refuted_K7. Qed.
+
+(* "a parameter whose template yields `omit` is dropped and the others are unaffected": on the mirror
+   of jinja::render_map, for every way single strings render (the oracle [rnd]), an entry that yields
+   the placeholder is exactly as if it had not been written - for the rendered mapping and for the
+   variables seen afterwards - and nothing appears in the result that the mapping does not contain *)
+Theorem C12_omitted_entry_is_as_if_absent : forall tpl (rnd : ostore -> tpl -> rres) a cur k t b,
+  (forall c, ctx_after tpl rnd cur a = Some c -> rnd c t = ROmit) ->
+  render_map_o tpl rnd cur (a ++ (k, t) :: b) = render_map_o tpl rnd cur (a ++ b).
+Proof. exact omitted_entry_is_as_if_absent. Qed.
+Theorem C12_omitted_entry_leaves_the_context : forall tpl (rnd : ostore -> tpl -> rres) a cur k t b,
+  (forall c, ctx_after tpl rnd cur a = Some c -> rnd c t = ROmit) ->
+  ctx_after tpl rnd cur (a ++ (k, t) :: b) = ctx_after tpl rnd cur (a ++ b).
+Proof. exact omitted_entry_leaves_the_context. Qed.
+Theorem C12_rendered_keys_come_from_the_mapping : forall tpl (rnd : ostore -> tpl -> rres) kvs cur res,
+  render_map_o tpl rnd cur kvs = Some res -> subseq_keys tpl res kvs.
+Proof. exact result_keys_come_from_the_mapping. Qed.
+Theorem C12_without_omit_nothing_differs : forall tpl (rnd : ostore -> tpl -> rres) kvs cur,
+  (forall c t, rnd c t <> ROmit) -> render_map_o tpl rnd cur kvs = render_map_plain tpl rnd cur kvs.
+Proof. exact without_omit_nothing_differs. Qed.
